@@ -20,6 +20,9 @@ pub fn build(tier: &str, seed: u64) -> World {
     let mut cases = vec![];
     for (ci, cfg) in cfgs.iter().enumerate() {
         let n = cfg.n();
+        if cfg.name.ends_with("-big") {
+            continue;
+        }
         // quick: all n=2 configurations, one n=3 configuration completely, the rest of n=3 sparsely
         let dense = n == 2 || thorough;
         let stride = if cfg.name == "n3-E1-Oall" { 2 } else { 6 };
